@@ -94,13 +94,18 @@ def run(ctx):
         runs.append(["mtmix", [1, 2, 4, 16][r % 4], ctx.seed * 100 + r, 400, r % 3, (r // 3) % 2])
     ctx.rules.append("fnode-mtmix (oracle only): a function_node broadcasts to a queueing serial, an unlimited and a REJECTING successor (rejecting serial function_node or a full limiter_node) connected "
                      "first / in the middle / last: the queueing and unlimited successors receive every output exactly once whatever the rejecting one does")
+    for r in range(ctx.scale(12, 150)):
+        runs.append(["mtpull", [2, 4, 4, 8][r % 4], ctx.seed * 100 + r, 1500, 1 + (r // 4) % 2])
+    ctx.rules.append("fnode-mtpull (oracle only): queue_node -> REJECTING function_node of concurrency 1/2; after a preparation in which the node's forwarder ran while the node was full, 1500 rounds put "
+                     "messages at about the time the running bodies return (rejection / predecessor registration racing with the last body finishing); after every round wait_for_all must mean idle: "
+                     "everything put processed exactly once, nothing left in the queue")
     for args in runs:
         rc, lines2, err = ctx.run_driver(exe, args, timeout=300)
         ctx.count(("fnode-mt", tuple(args)), True, "fnode-%s" % args[0])
         t = (lines2 or ["no output"])[-1].split()
         if rc != 0 or len(t) < 6 or any(x != "0" for x in t[1::2]):
             bad += 1
-            what = ("function_node(limit %d) -> %d successors" % (args[4], args[5])) if args[0] == "mt" else (
+            what = ("function_node(limit %d) -> %d successors" % (args[4], args[5])) if args[0] == "mt" else ("queue_node -> rejecting function_node(concurrency %d), %d rounds" % (args[4], args[3])) if args[0] == "mtpull" else (
                 "function_node broadcasting to [queueing, unlimited] plus a %s connected %s" % (["rejecting serial function_node", "full limiter_node"][args[5]], ["first", "in the middle", "last"][args[4]]))
             ctx.add(Finding("violation", "fnode-" + args[0], "%s, %d worker threads, seed %d: %s rc=%s" % (what, args[1], args[2], " ".join(t), rc), {"tie": "fnode-mt", "args": args}))
             if bad >= 3:
